@@ -7,7 +7,7 @@
    the identifier branches, the final `raise FFIError`, and _add_integer_constant.
    Domain of the literal functions: token texts that pycparser's lexer can produce (letters, digits,
    '.', quotes, backslash; no blanks, signs or '_', for which Python's int() has extra rules). *)
-From Coq Require Import ZArith NArith String List Bool.
+From Coq Require Import ZArith NArith String Ascii List Bool.
 Import ListNotations.
 From Cffi Require Import C09.Prim C09.Gen.
 Open Scope Z_scope.
@@ -145,3 +145,6 @@ Definition exn_code (e : pyexn) : Z :=
 (* (0, value) or (exception code, 0) *)
 Definition res_out (r : res Z) : Z * Z := match r with Ok v => (0, v) | Err e => (exn_code e, 0) end.
 Definition py_eval_out (e : expr) : Z * Z := res_out (py_eval [] e).
+
+(* a literal token given as a Coq string (for examples and witnesses) *)
+Definition lit (s : string) : expr := Const (map (fun a => N_of_ascii a) (list_ascii_of_string s)).
